@@ -243,6 +243,26 @@ class Squid:
                 time.sleep(0.05)
         raise MachineryError('squid did not open its port\n' + self.tail_log())
 
+    def init_dirs(self, wait=60.0):
+        """squid -z: create cache_dir structures (run before start)"""
+        chown_r(self.run)
+        args = [os.path.join(self.tree, 'src', 'squid'), '-f', self.conf, '-n', self.svc, '-z', '-N' if not self.workers else '--foreground']
+        with open(os.path.join(self.run, 'stdout-z.txt'), 'ab') as out:
+            p = subprocess.Popen(args, env=self.env, stdout=out, stderr=subprocess.STDOUT, cwd=self.run, user='nobody',
+                                 group=NOBODY.pw_gid, extra_groups=[], start_new_session=True)
+            try:
+                p.wait(wait)
+            except subprocess.TimeoutExpired:
+                os.killpg(p.pid, signal.SIGKILL)
+                raise MachineryError('squid -z timed out\n' + self.tail_log())
+        for f in glob.glob('/dev/shm/squid-%s-*' % self.svc):
+            try:
+                os.unlink(f)
+            except OSError:
+                pass
+        if p.returncode != 0:
+            raise MachineryError('squid -z failed rc=%s\n%s' % (p.returncode, self.tail_log()))
+
     def alive(self):
         return self.proc is not None and self.proc.poll() is None
 
